@@ -348,6 +348,16 @@ pub fn run(args: &Args) -> Report {
                 let mut a = rig.auth(AuthCfg::default());
                 let store = rig.store.clone();
                 history(&mut rep, args.seed, i, kind, &mut a, &move |_| store.snapshot());
+                // "stores a credential for that application": what the store is handed as relying party
+                // is the application the credential itself is filed under
+                for e in rig.log.snapshot().iter() {
+                    if let crate::collab::Ev::Save { rp_entity, rp_id, id, .. } = &e.ev {
+                        rep.count("save_arguments_checked");
+                        if rp_entity != rp_id {
+                            rep.violate("u2f registration hands the store a relying party other than the credential's application", format!("rp argument {rp_entity:?}, credential filed under {rp_id:?} (key handle {})", hex_short(id)), json!({"index": i, "store": "Rec"}));
+                        }
+                    }
+                }
             }
             StoreKind::Memory => {
                 let rig = Rig::ok(Disc::Full);
